@@ -158,6 +158,7 @@ type crashRecorder struct {
 	lastW    map[int]map[string]int // op -> rel path -> event seq of its last write
 	syncSeq  map[string]int         // rel path -> seq of the last sync
 	evCount  int
+	written  map[string]int64 // MMap: logical bytes written per file (rw.write events)
 	opWrites map[string]bool
 	// promised: number of leading mutations whose durability was PROMISED by a returned call (a Sync
 	// batch, a Put/Delete under SyncStrategy Always, Sync(), Close()), whatever flushes were observed.
@@ -165,7 +166,7 @@ type crashRecorder struct {
 }
 
 func newCrashRecorder(root string) *crashRecorder {
-	return &crashRecorder{root: root, op: -1, synced: map[string]int64{}, lastW: map[int]map[string]int{}, syncSeq: map[string]int{}}
+	return &crashRecorder{root: root, op: -1, synced: map[string]int64{}, lastW: map[int]map[string]int{}, syncSeq: map[string]int{}, written: map[string]int64{}}
 }
 
 func (c *crashRecorder) rel(p string) string {
@@ -194,12 +195,15 @@ func (c *crashRecorder) after(ev *iorec.Event) {
 				c.lastW[c.op] = map[string]int{}
 			}
 			c.lastW[c.op][rel] = c.evCount
+			if ev.Op == "rw.write" {
+				c.written[rel] = ev.Off + ev.N
+			}
 		case "sync":
 			c.synced[rel] = fileLen(ev.Path)
 			c.syncSeq[rel] = c.evCount
 		case "msync":
-			// the logical size is not visible here; an msync covers everything written so far
-			c.synced[rel] = -1
+			// an msync covers everything written into the mapping so far (tracked through the rw.write events)
+			c.synced[rel] = c.written[rel]
 			c.syncSeq[rel] = c.evCount
 		case "create":
 			c.synced[rel] = 0
@@ -207,6 +211,7 @@ func (c *crashRecorder) after(ev *iorec.Event) {
 			rel2 := c.rel(ev.Path2)
 			c.synced[rel2] = c.synced[rel]
 			c.syncSeq[rel2] = c.syncSeq[rel]
+			c.written[rel2] = c.written[rel]
 			delete(c.synced, rel)
 			for _, m := range c.lastW {
 				if s, ok := m[rel]; ok {
